@@ -145,6 +145,12 @@ class View(Arr):
     def elem(self, i):
         return self.base._elem(i + self.lo)
 
+    @property
+    def _elem(self):
+        """read access like a plain array (the window at the time of the read)"""
+        e, lo = self.base._elem, self.lo
+        return lambda i: e(i + lo)
+
     def snapshot(self):
         e, lo = self.base._elem, self.lo
         return Arr(self.hi - self.lo, lambda i: e(i + lo), self.kind)
